@@ -93,4 +93,9 @@ CHECKS = {
   "text": "64 generated likelihood cases per quick run (4 model families x 16 shards; 1500 per family thorough), each checked at 2-3 batch sizes. Exploration level.",
   "note": "Trusted: numpy formula for each model (default/extended/cfit*/cached*/simple*), densities from one plain eager evaluation. Densities are kept above 1e-3 (clip_log branch excluded). The cached models are given two unequal batches (their per-batch tracing costs seconds).",
  },
+ "C07": {
+  "technique": "property-based testing with a finite-difference oracle: for generated likelihood cases (all claimed models, floating masses/widths, bounded parameters, Gaussian constraints) the returned gradient, Hessian and Hessian-vector product are compared with Richardson-extrapolated directional finite differences of the reported NLL / returned gradient (coordinate directions of the special parameters plus random directions), in physical and in bound-transformed fit space",
+  "text": "36 cases per quick run (every claimed model in every run, 2-4 cases each; 400 per model thorough), each with 2-3 directions for first and second derivatives. Exploration level; the oracle carries its own error estimate.",
+  "note": "Trusted: finite differences of fcn({}) with error estimate |g(h/2)-g(h)|; small structures (2 chains) keep the eager cost bounded. Known findings (pinned by construction, one per cfit model): grad_hessp of the cfit family returns default-likelihood derivatives.",
+ },
 }
